@@ -81,6 +81,7 @@ def gen_function(c: Contract, prop: str, bounded=None) -> FunctionReport:
     """Symbolically execute the real function of contract c; return its proof obligations."""
     rep = FunctionReport(c.key)
     ops.MODE["bounded"] = bounded
+    ops.MODE["side"] = []
     try:
         node, fn, kind, sha, fname, owner = load_function(c.key)
         rep.sha, rep.file = sha, fname
@@ -203,6 +204,9 @@ def gen_function(c: Contract, prop: str, bounded=None) -> FunctionReport:
                     s2 = s1.fork()
                     g = ex.eval_contract(s2, cond, dict(s1.old.env))
                     ex.emit(s1, "raises-iff", en, z3.Not(g), note="normal return although the raise condition holds")
+        if bounded is not None:
+            for o in ex.obligations:
+                o.hyps = o.hyps + list(ops.MODE["side"])
         rep.obligations = [vac] + ex.obligations
         rep.inlined = sorted(ex.inlined)
         rep.callees = sorted(ex.callees)
@@ -237,6 +241,7 @@ def check_hint_is_lemmas(fn):
 def gen_lemma(l: Lemma, prop: str, bounded=None) -> FunctionReport:
     rep = FunctionReport("lemma:" + l.name)
     ops.MODE["bounded"] = bounded
+    ops.MODE["side"] = []
     try:
         fn = l.fn
         node, params = contract_ast(fn)
@@ -267,12 +272,20 @@ def gen_lemma(l: Lemma, prop: str, bounded=None) -> FunctionReport:
                 mi = coerce(ex.eval_fn_body(st, l.measure, mnode, {p: e2[p] for p in mparams}), INT).z
                 st.assume(z3.Implies(z3.And(mi >= 0, mi < m0), stmt_at(args)))
         if l.unfold is not None:
+            check_hint_is_lemmas(l.unfold)     # only instances of other (proved) lemmas may be used
             unode, uparams = contract_ast(l.unfold)
             u = ex.eval_fn_body(st, l.unfold, unode, {p: env[p] for p in uparams})
             st.assume(truthy(u))
         goal = stmt_at([env[p] for p in params])
+        # definitional unfolding of the recursive specs at the lemma's own arguments (instances of definitions)
+        from .exec import unfold_equations
+        for eq in unfold_equations(goal):
+            st.assume(eq)
         ex.fkey = "lemma." + l.name
         ex.emit(st, "lemma", "statement", goal)
+        if bounded is not None:
+            for o in ex.obligations:
+                o.hyps = o.hyps + list(ops.MODE["side"])
         rep.obligations = ex.obligations
     except Stale as e:
         rep.error = ("stale", str(e))
@@ -284,30 +297,50 @@ def gen_lemma(l: Lemma, prop: str, bounded=None) -> FunctionReport:
 
 
 # ---------------------------------------------------------------------------------------------- solving
-def solve_obligation(ob: Obligation, timeout_ms=10000, use_cli=True):
+def _z3_check(ob, timeout_ms, seed):
+    from .engine import text_literal_axioms
+    s = z3.Solver()
+    s.set("timeout", timeout_ms)
+    if seed:
+        s.set("random_seed", seed)
+    s.add(*ob.hyps)
+    s.add(*text_literal_axioms())
+    s.add(z3.Not(ob.goal))
+    return s, s.check()
+
+
+def solve_obligation(ob: Obligation, timeout_ms=10000, use_cli=True, bounded=False):
+    """unsat -> discharged.  `sat` is believed only for the bounded (quantifier-free) re-encoding and only after the
+    model has been re-evaluated against the query; a `sat` on a quantified query is treated as unknown (z3's model
+    finder is not reliable there: observed to flip between sat and unsat on identical queries)."""
     if ob.kind == "vacuity":
         return ob
     t0 = time.time()
-    s = z3.Solver()
-    s.set("timeout", timeout_ms)
-    s.add(*ob.hyps)
-    from .engine import text_literal_axioms
-    s.add(*text_literal_axioms())
-    s.add(z3.Not(ob.goal))
-    r = s.check()
+    s, r = _z3_check(ob, timeout_ms, 0)
+    if r != z3.unsat and not bounded:
+        # one retry with another seed and a longer budget (verdicts must not flip on a loaded machine)
+        s, r = _z3_check(ob, timeout_ms * 3, 7)
     ob.time_s = time.time() - t0
     if r == z3.unsat:
         ob.status, ob.backend = "discharged", "z3-5.1.0-inproc"
         return ob
-    if r == z3.sat:
-        ob.status, ob.backend = "sat", "z3-5.1.0-inproc"
-        ob.model = s.model()
-        return ob
+    if r == z3.sat and bounded:
+        m = s.model()
+        try:
+            ok = all(z3.is_true(m.eval(h, model_completion=True)) for h in ob.hyps) and \
+                z3.is_false(m.eval(ob.goal, model_completion=True))
+        except Exception:
+            ok = False
+        if ok:
+            ob.status, ob.backend = "sat", "z3-5.1.0-inproc (bounded encoding, model re-evaluated)"
+            ob.model = m
+            return ob
     ob.status = "unknown"
     ob.backend = "z3-5.1.0-inproc"
-    if use_cli:
-        smt = s.to_smt2()
-        for name, cmd in (("cvc5-1.0.3", ["/usr/bin/cvc5", "--tlimit=30000", "--strings-exp", "--lang=smt2"]),
+    if use_cli and not bounded:
+        import re as _re
+        smt = _re.sub(r"\(_ (spec_\w+) 0\)", r"\1", s.to_smt2())     # z3 prints recursive-function applications indexed
+        for name, cmd in (("cvc5-1.0.3", ["/usr/bin/cvc5", "--tlimit=20000", "--strings-exp", "--lang=smt2"]),
                           ("z3-4.8.12", ["/usr/bin/z3", "-T:30", "-smt2"])):
             res = run_cli(cmd, smt)
             if res == "unsat":
